@@ -89,6 +89,9 @@ mod scratch {
         next: usize,
         /// (segment address, slot index, length) of borrows handed out mutably
         pending: Vec<(usize, usize, usize)>,
+        /// (segment address, slot index, length) of shared borrows that may still be read through:
+        /// a plain reference reads memory when it is used, not when it is created
+        lazy: Vec<(usize, usize, usize)>,
     }
 
     thread_local! {
@@ -96,6 +99,7 @@ mod scratch {
             slots: (0..SLOTS).map(|_| Box::new(Slot([0; SLOT_SIZE]))).collect(),
             next: 0,
             pending: Vec::new(),
+            lazy: Vec::new(),
         });
     }
 
@@ -113,6 +117,30 @@ mod scratch {
         for (addr, src, len) in pending {
             (h.data_write)(addr, src, len);
         }
+        // A shared borrow handed out earlier may be read through after this point: let the checker
+        // place a read of the segment here as well (the slot is what the program will see).
+        let lazy: Vec<(usize, *mut u8, usize)> = POOL.with(|p| {
+            let mut p = p.borrow_mut();
+            if p.lazy.is_empty() {
+                return Vec::new();
+            }
+            let list = p.lazy.clone();
+            list.into_iter()
+                .map(|(addr, slot, len)| (addr, p.slots[slot].0.as_mut_ptr(), len))
+                .collect()
+        });
+        for (addr, dst, len) in lazy {
+            (h.data_read)(addr, dst, len);
+        }
+    }
+
+    /// The mapping at `addr..addr+len` is going away: borrows into it are dead.
+    pub(super) fn forget(addr: usize, len: usize) {
+        POOL.with(|p| {
+            let mut p = p.borrow_mut();
+            p.lazy.retain(|(a, _, _)| *a < addr || *a >= addr + len);
+            p.pending.retain(|(a, _, _)| *a < addr || *a >= addr + len);
+        });
     }
 
     /// Fill a fresh slot with the content of the segment at `addr` (through the read hook) and
@@ -123,6 +151,8 @@ mod scratch {
             let mut p = p.borrow_mut();
             let idx = p.next;
             p.next = (p.next + 1) % SLOTS;
+            // the slot is being recycled: whatever borrow used it before is over
+            p.lazy.retain(|(_, s, _)| *s != idx);
             (idx, p.slots[idx].0.as_mut_ptr())
         });
         if writable {
@@ -133,6 +163,7 @@ mod scratch {
             POOL.with(|p| p.borrow_mut().pending.push((addr, idx, len)));
         } else {
             (h.data_read)(addr, ptr, len);
+            POOL.with(|p| p.borrow_mut().lazy.push((addr, idx, len)));
         }
         ptr
     }
@@ -150,6 +181,11 @@ pub fn register_mapping(addr: usize, len: usize, writable: bool) {
     if let Some(h) = hooks() {
         (h.map)(addr, len, writable)
     }
+}
+
+/// A mapping of the segment is about to be removed.
+pub fn unregister_mapping(addr: usize, len: usize) {
+    scratch::forget(addr, len);
 }
 
 /// Give the checker the opportunity to redirect the segment path.
